@@ -1,0 +1,112 @@
+//go:build verif
+
+package main
+
+import (
+	"fmt"
+	"strings"
+
+	"github.com/moorara/algo/lexer"
+
+	"github.com/gardenbed/emerge/internal/ebnf/parser/ast"
+)
+
+func init() {
+	register("ast", opAST)
+}
+
+func posJ(p *lexer.Position) any {
+	if p == nil {
+		return nil
+	}
+	return []int{p.Offset, p.Line, p.Column}
+}
+
+func rhsJ(r ast.RHS) any {
+	switch n := r.(type) {
+	case nil:
+		return nil
+	case *ast.ConcatRHS:
+		ops := []any{}
+		for _, o := range n.Ops {
+			ops = append(ops, rhsJ(o))
+		}
+		return map[string]any{"k": "concat", "ops": ops}
+	case *ast.AltRHS:
+		ops := []any{}
+		for _, o := range n.Ops {
+			ops = append(ops, rhsJ(o))
+		}
+		return map[string]any{"k": "alt", "ops": ops}
+	case *ast.OptRHS:
+		return map[string]any{"k": "opt", "op": rhsJ(n.Op), "pos": posJ(n.Position)}
+	case *ast.StarRHS:
+		return map[string]any{"k": "star", "op": rhsJ(n.Op), "pos": posJ(n.Position)}
+	case *ast.PlusRHS:
+		return map[string]any{"k": "plus", "op": rhsJ(n.Op), "pos": posJ(n.Position)}
+	case *ast.NonTerminalRHS:
+		return map[string]any{"k": "nt", "name": n.NonTerminal, "pos": posJ(n.Position)}
+	case *ast.TerminalRHS:
+		return map[string]any{"k": "t", "name": n.Terminal, "pos": posJ(n.Position)}
+	case *ast.EmptyRHS:
+		return map[string]any{"k": "empty"}
+	}
+	return map[string]any{"k": fmt.Sprintf("unknown %T", r)}
+}
+
+func declJ(d ast.Decl) any {
+	switch n := d.(type) {
+	case *ast.StringTokenDecl:
+		return map[string]any{"k": "string_token", "name": n.Name, "value": n.Value, "pos": posJ(n.Position)}
+	case *ast.RegexTokenDecl:
+		return map[string]any{"k": "regex_token", "name": n.Name, "value": n.Regex, "pos": posJ(n.Position)}
+	case *ast.PrecedenceDecl:
+		hs := []any{}
+		for _, h := range n.Handles {
+			switch x := h.(type) {
+			case *ast.TerminalHandle:
+				hs = append(hs, map[string]any{"k": "term_handle", "name": x.Terminal, "pos": posJ(x.Position)})
+			case *ast.ProductionHandle:
+				hs = append(hs, map[string]any{"k": "prod_handle", "lhs": x.LHS, "rhs": rhsJ(x.RHS), "pos": posJ(x.Position)})
+			default:
+				hs = append(hs, map[string]any{"k": fmt.Sprintf("unknown %T", h)})
+			}
+		}
+		return map[string]any{"k": "precedence", "assoc": n.Associativity.String(), "handles": hs, "pos": posJ(n.Position)}
+	case *ast.RuleDecl:
+		return map[string]any{"k": "rule", "lhs": n.LHS, "rhs": rhsJ(n.RHS), "pos": posJ(n.Position)}
+	}
+	return map[string]any{"k": fmt.Sprintf("unknown %T", d)}
+}
+
+func grammarJ(g *ast.Grammar) map[string]any {
+	decls := []any{}
+	for _, d := range g.Decls {
+		decls = append(decls, declJ(d))
+	}
+	return map[string]any{"name": g.Name, "pos": posJ(g.Position), "decls": decls}
+}
+
+// opAST runs the typed-tree builder (ebnf ast.Parse) and dumps the tree; with "again" the tree is compared (Equal)
+// with the tree of a second text.
+func opAST(req request) response {
+	g, err := ast.Parse("f", strings.NewReader(str(req, "text")))
+	if err != nil {
+		return response{"outcome": "error", "error": err.Error(), "nil_tree": g == nil}
+	}
+	if g == nil {
+		return response{"outcome": "ok", "nil_tree": true}
+	}
+	res := response{"outcome": "ok", "tree": grammarJ(g)}
+	if again, ok := req["again"].(string); ok {
+		g2, err2 := ast.Parse("f", strings.NewReader(again))
+		if err2 != nil {
+			res["again_error"] = err2.Error()
+		} else {
+			res["again_tree"] = grammarJ(g2)
+			res["equal"] = g.Equal(g2)
+			res["equal_reverse"] = g2.Equal(g)
+		}
+	}
+	return res
+}
